@@ -39,6 +39,7 @@ def run(ctx, rep):
     # the AIR's own sizes and parameters (N_CONSTRAINTS, MASK_SIZE, CONSTRAINT_DEGREE, column counts, builtin ratios ...)
     common.constants_check(db, rep, 'C01.constants', cfgname, layouts=True)
     periodic_gating(db, rep, lay, cfgname)
+    periodic_args(db, rep, lay, cfgname)
 
     # ---------- (d) result discipline over Reach(verify) ----------
     R = db.reach([VERIFY])
@@ -309,3 +310,36 @@ def periodic_gating(db, rep, lay, cfgname):
                f'{r.split("::")[-1]} must be evaluated only when uses_{b}_builtin != 0' + ('' if ok else
                (f'; it is not on the non-zero side of {tst[2][:70]}' if tst else f'; no test on uses_{b}_builtin found')), m.loc(t['line']), cfgname)
     rep.floor('C01.periodic', 'periodic column evaluations in the dynamic layout', n, 8)
+
+
+def periodic_args(db, rep, lay, cfgname):
+    """the point each periodic column is evaluated at (point^(trace_length / (row_ratio * repetitions)) and the like) is
+    computed from the same operations, constants (by value) and dynamic parameters as on the pinned tree
+    (tables/periodic_args.json). Temporaries, helper extraction and operand order do not matter; another operation,
+    constant or parameter does."""
+    import json
+    import os
+    import dataflow
+    import guardtable as GT
+    tab = json.load(open(os.path.join(os.path.dirname(os.path.dirname(os.path.dirname(os.path.abspath(__file__)))), 'tables', 'periodic_args.json')))['layouts']
+    n = 0
+    for lname, lself in sorted(lay.items()):
+        m = common.layout_method(db, lself, 'eval_composition_polynomial', 'C01.periodic-args')
+        if not m.has_mir or m.compact:
+            continue
+        fl = dataflow.Flow(db, m)
+        for bi, t in m.calls():
+            r = t['f'].get('resolved') or ''
+            if 'periodic_columns::eval_' not in r or not t.get('args'):
+                continue
+            name = r.split('::')[-1]
+            want = tab.get(lname, {}).get(name)
+            if want is None:
+                continue
+            lv = GT.norm_side(db, fl.operand_leaves(t['args'][0]))
+            sig = sorted(x if '.dynamic_params.' not in x else 'dp:' + x.split('.dynamic_params.')[1]
+                         for x in lv if x.startswith(('op:', 'val:')) or '.dynamic_params.' in x)
+            n += 1
+            rep.ob('C01.periodic-args', f'{lname}/{name}', sig == want,
+                   f'{lname}: argument of {name} is computed from {sig}' + ('' if sig == want else f'; confirmed: {want}'), m.loc(t['line']), cfgname)
+    rep.floor('C01.periodic-args', 'periodic column evaluations compared', n, 40)
